@@ -364,41 +364,6 @@ Section Rules.
     sem_tree env tgt = slots_sem sl (sem_tree env skip).
   Proof. exact Hs. Qed.
 
-  Lemma rule_calc t e s' :
-    op_wf (Calc t e) (columns (SelM sl skip tgt)) → append_unary_sel (Calc t e) (SelM sl skip tgt) = Ok s' →
-    sound_result env (Calc t e) (SelM sl skip tgt) s'.
-  Proof.
-    intros Ho H. destruct G_parts as (G1 & G2 & G3 & G4 & G5 & G6 & G7 & G8).
-    cbn [append_unary_sel] in H.
-    destruct (is_chain skip || bool_decide (t ∈ columns skip)) eqn:Eb.
-    { apply nest_unary_sound; auto. }
-    apply orb_false_iff in Eb as [Ec Et]. apply bool_decide_eq_false in Et.
-    destruct (finish_apply (Calc t e) skip) as [k|] eqn:Ek; cbn [rbind] in H; [|discriminate].
-    simpl in Ho. rewrite G6 in Ho. destruct Ho as (O1 & O2 & O3).
-    assert (Hwfo : op_wf (Calc t e) (columns skip)).
-    { simpl. destruct G5 as (_ & W2 & _). unfold slots_cols in *. destruct (s_proj sl); repeat split; auto; set_solver. }
-    destruct (finish_apply_sem env skip (Calc t e) k G1 G3 (or_intror Hwfo) Ek) as (K1 & K2 & K3 & K4 & K5).
-    pose proof (sem_tree_dom env skip G1 G3) as Hdom.
-    assert (Hsem : slots_sem (with_proj sl (match s_proj sl with Some ps => Some (ps ∪ {[t]}) | None => None end)) (sem_tree env k)
-                   = sem_calc t e (slots_sem sl (sem_tree env skip))).
-    { rewrite K1. simpl. apply (slots_calc sl (columns skip)); auto. }
-    assert (Hwf' : slots_wf (with_proj sl (match s_proj sl with Some ps => Some (ps ∪ {[t]}) | None => None end)) (columns k)).
-    { destruct G5 as (W1 & W2 & W3). rewrite K3. simpl. unfold slots_wf. cbn [s_sort s_proj s_slice with_proj].
-      split; [set_solver|]. split; [|auto]. destruct (s_proj sl); auto. set_solver. }
-    assert (Hcols : slots_cols (with_proj sl (match s_proj sl with Some ps => Some (ps ∪ {[t]}) | None => None end)) (columns k)
-                    = op_columns (Calc t e) (columns (SelM sl skip tgt))).
-    { simpl. rewrite G6, K3. unfold slots_cols. cbn [s_proj with_proj]. destruct (s_proj sl); reflexivity. }
-    assert (Hchk : chains_good env k) by (eapply finish_apply_chains; eauto).
-    destruct (has_proj sl) eqn:Ep.
-    - unfold has_proj in Ep. destruct (s_proj sl) as [ps|] eqn:Eps; [|discriminate].
-      assert (EE : columns (SelM sl skip tgt) ∪ {[t]} = ps ∪ {[t]}).
-      { simpl. rewrite G6. unfold slots_cols. rewrite Eps. reflexivity. }
-      rewrite EE in H.
-      eapply reskip_sound; eauto. simpl. rewrite G8. exact Hsem. simpl. congruence.
-    - unfold has_proj in Ep. destruct (s_proj sl) as [ps|] eqn:Eps; [discriminate|].
-      rewrite <- Eps, with_proj_same in Hsem, Hwf', Hcols.
-      eapply reskip_sound; eauto. simpl. rewrite G8. exact Hsem. simpl. congruence.
-  Qed.
 End Rules.
 
 Section Rules2.
@@ -427,6 +392,56 @@ Section Rules2.
     eapply (reskip_sound env o S sl' S s'); eauto; simpl; auto.
   Qed.
 
+  (* nesting without the sort; the sort is re-applied outside *)
+  Lemma nest_hoist_sound o s' :
+    (match o with Sel _ | Calc _ _ => True | _ => False end) →
+    op_wf o (columns S) → has_slice sl = false →
+    nest_hoist_sort o sl skip = Ok s' → sound_result env o S s'.
+  Proof.
+    intros Hkind Ho Hsl H. destruct GP as (G1 & G2 & G3 & G4 & G5 & G6 & G7 & G8). unfold nest_hoist_sort in H.
+    pose proof G5 as (W1 & W2 & W3).
+    match type of H with (if negb (bool_decide ?P) then _ else _) = _ => destruct (bool_decide P) eqn:Eg end;
+      cbn [negb] in H; [|discriminate].
+    apply bool_decide_eq_true in Eg. fold (slots_cols sl (columns skip)) in Eg.
+    destruct (apply_skip (with_sort sl []) skip) as [sub|] eqn:Esub; cbn [rbind] in H; [|discriminate].
+    assert (Hw0 : slots_wf (with_sort sl []) (columns skip)).
+    { split; [simpl; apply empty_subseteq|]. split; [exact W2|exact W3]. }
+    destruct (apply_skip_good env _ skip sub G1 G3 Hw0 Esub) as (A & B & C).
+    destruct sub as [| | | | |sl2 skip2 tgt2]; try (destruct A; fail). simpl in B, C. subst sl2 skip2.
+    pose proof A as (A1 & A2 & A3 & A4 & A5 & A6 & A7 & A8).
+    set (sub := SelM (with_sort sl []) skip tgt2) in *.
+    destruct (finish_default o sub) as [t|] eqn:Ef; cbn [rbind] in H; [|discriminate].
+    unfold finish_default in Ef. destruct (op_supported _ o); [|discriminate]. injection Ef as <-.
+    assert (Hcsub : columns sub = columns S) by (simpl; rewrite A6, G6; reflexivity).
+    refine (reskip_sound env o S (with_sort no_slots (s_sort sl)) (Un o sub) s' H _ _ _ _ _ _ I).
+    - split; [change (op_wf o (columns sub)); rewrite Hcsub; exact Ho|exact A2].
+    - simpl. exact A4.
+    - assert (Hreq : op_required (Sort (s_sort sl)) ⊆ columns (Un o sub)).
+      { change (columns (Un o sub)) with (op_columns o (columns sub)). rewrite Hcsub.
+        unfold S. cbn [columns]. rewrite G6.
+        destruct o; simpl; try (destruct Hkind; fail); set_solver. }
+      unfold slots_wf, slice_ok. cbn [s_sort s_proj s_slice with_sort no_slots fst snd].
+      split; [exact Hreq|]. split; [exact I|]. split; [reflexivity|exact I].
+    - cbn [sem_tree]. change (sem_tree env sub) with (sem_tree env tgt2). rewrite A8.
+      unfold S. cbn [sem_tree]. rewrite G8.
+      unfold slots_sem. cbn [s_sort s_proj s_dedup s_slice with_sort no_slots fst snd].
+      rewrite sem_sort_nil. rewrite !(sem_slice_trivial _ _ Hsl). change (sem_slice 0 None ?x) with x.
+      set (X := sem_tree env skip).
+      assert (E1 : sem_sort (s_sort sl) (if s_dedup sl then sem_dedup (match s_proj sl with Some cs => sem_proj cs X | None => X end)
+                                          else match s_proj sl with Some cs => sem_proj cs X | None => X end)
+                   = (if s_dedup sl then sem_dedup (match s_proj sl with Some cs => sem_proj cs (sem_sort (s_sort sl) X) | None => sem_sort (s_sort sl) X end)
+                      else match s_proj sl with Some cs => sem_proj cs (sem_sort (s_sort sl) X) | None => sem_sort (s_sort sl) X end)).
+      { unfold slots_cols in Eg. destruct (s_proj sl) as [ps|]; destruct (s_dedup sl);
+          rewrite <- ?dedup_sort_commute, ?sort_proj_commute by auto; reflexivity. }
+      destruct o; try (destruct Hkind; fail).
+      + (* calculation *)
+        simpl. simpl in Ho. destruct Ho as (O1 & O2 & O3).
+        rewrite sort_calc_commute by (rewrite G6 in O2; set_solver). rewrite E1. reflexivity.
+      + simpl. rewrite <- sel_sort_commute. rewrite E1. reflexivity.
+    - cbn [slots_cols s_proj with_sort no_slots]. rewrite <- Hcsub. reflexivity.
+    - simpl. rewrite A7. symmetry. exact G7.
+  Qed.
+
   Lemma rule_dedup s' :
     append_unary_sel Dedup S = Ok s' → sound_result env Dedup S s'.
   Proof.
@@ -450,7 +465,7 @@ Section Rules2.
   Proof.
     intros Ho H. destruct GP as (G1 & G2 & G3 & G4 & G5 & G6 & G7 & G8). cbn [append_unary_sel S] in H.
     destruct (has_slice sl) eqn:Es; [apply nest_unary_sound; auto|].
-    destruct (is_chain skip) eqn:Ec; [apply nest_unary_sound; auto|].
+    destruct (is_chain skip) eqn:Ec; [apply nest_hoist_sound; auto; exact I|].
     destruct (finish_apply (Sel p) skip) as [k|] eqn:Ek; cbn [rbind] in H; [|discriminate].
     simpl in Ho. rewrite G6 in Ho.
     assert (Hwfo : op_wf (Sel p) (columns skip)).
@@ -483,9 +498,13 @@ Section Rules2.
   Proof.
     intros Ho H. destruct GP as (G1 & G2 & G3 & G4 & G5 & G6 & G7 & G8). cbn [append_unary_sel S] in H.
     simpl in Ho. pose proof Ho as Ho1. rewrite G6 in Ho1.
+    assert (Hnest : apply_skip (with_sort no_slots ts) S = Ok s' → sound_result env (Sort ts) S s').
+    { intros H'. apply nest_slots_sound with (sl' := with_sort no_slots ts); auto.
+      unfold slots_wf, slice_ok. simpl. repeat split; try exact Ho; try lia. }
+    destruct (is_chain skip && negb (forallb (λ t : expr * bool, is_colref t.1) ts)) eqn:E15.
+    { destruct (has_sort sl && negb (has_slice sl)); [discriminate|]. apply Hnest. exact H. }
     destruct (has_slice sl) eqn:Es.
-    - apply nest_slots_sound with (sl' := with_sort no_slots ts); auto.
-      unfold slots_wf, slice_ok. simpl. repeat split; try exact Ho; try lia.
+    - apply Hnest. exact H.
     - destruct G5 as (W1 & W2 & W3).
       refine (reskip_sound env (Sort ts) S (with_sort sl (sort_then (s_sort sl) ts)) skip s' H G1 G3 _ _ _ _ Hch).
       + split; [|split; [exact W2|exact W3]]. cbn [s_sort with_sort].
@@ -494,6 +513,43 @@ Section Rules2.
       + rewrite sem_S. simpl. apply (slots_sort sl (columns skip)); auto. exact (conj W1 (conj W2 W3)).
       + rewrite cols_S. reflexivity.
       + rewrite eng_S. reflexivity.
+  Qed.
+  Lemma rule_calc t e s' :
+    op_wf (Calc t e) (columns S) → append_unary_sel (Calc t e) S = Ok s' →
+    sound_result env (Calc t e) S s'.
+  Proof.
+    intros Ho H. pose proof GP as (G1 & G2 & G3 & G4 & G5 & G6 & G7 & G8).
+    cbn [append_unary_sel S] in H.
+    destruct (is_chain skip || bool_decide (t ∈ columns skip)) eqn:Eb.
+    { destruct (has_sort sl && negb (has_slice sl)) eqn:Eh.
+      - apply andb_true_iff in Eh as [_ Eh]. apply negb_true_iff in Eh. apply nest_hoist_sound; auto; exact I.
+      - apply nest_unary_sound; auto. }
+    apply orb_false_iff in Eb as [Ec Et]. apply bool_decide_eq_false in Et.
+    destruct (finish_apply (Calc t e) skip) as [k|] eqn:Ek; cbn [rbind] in H; [|discriminate].
+    clear GP. pose proof Ho as Ho0. simpl in Ho. rewrite G6 in Ho. destruct Ho as (O1 & O2 & O3).
+    assert (Hwfo : op_wf (Calc t e) (columns skip)).
+    { simpl. destruct G5 as (_ & W2 & _). unfold slots_cols in *. destruct (s_proj sl); repeat split; auto; set_solver. }
+    destruct (finish_apply_sem env skip (Calc t e) k G1 G3 (or_intror Hwfo) Ek) as (K1 & K2 & K3 & K4 & K5).
+    pose proof (sem_tree_dom env skip G1 G3) as Hdom.
+    assert (Hsem : slots_sem (with_proj sl (match s_proj sl with Some ps => Some (ps ∪ {[t]}) | None => None end)) (sem_tree env k)
+                   = sem_calc t e (slots_sem sl (sem_tree env skip))).
+    { rewrite K1. simpl. apply (slots_calc sl (columns skip)); auto. }
+    assert (Hwf' : slots_wf (with_proj sl (match s_proj sl with Some ps => Some (ps ∪ {[t]}) | None => None end)) (columns k)).
+    { destruct G5 as (W1 & W2 & W3). rewrite K3. simpl. unfold slots_wf. cbn [s_sort s_proj s_slice with_proj].
+      split; [set_solver|]. split; [|auto]. destruct (s_proj sl); auto. set_solver. }
+    assert (Hcols : slots_cols (with_proj sl (match s_proj sl with Some ps => Some (ps ∪ {[t]}) | None => None end)) (columns k)
+                    = op_columns (Calc t e) (columns S)).
+    { simpl. rewrite G6, K3. unfold slots_cols. cbn [s_proj with_proj]. destruct (s_proj sl); reflexivity. }
+    assert (Hchk : chains_good env k) by (eapply finish_apply_chains; eauto).
+    destruct (has_proj sl) eqn:Ep.
+    - unfold has_proj in Ep. destruct (s_proj sl) as [ps|] eqn:Eps; [|discriminate].
+      assert (EE : columns (SelM sl skip tgt) ∪ {[t]} = ps ∪ {[t]}).
+      { simpl. rewrite G6. unfold slots_cols. rewrite Eps. reflexivity. }
+      rewrite EE in H.
+      eapply reskip_sound; eauto. simpl. rewrite G8. exact Hsem. simpl. congruence.
+    - unfold has_proj in Ep. destruct (s_proj sl) as [ps|] eqn:Eps; [discriminate|].
+      rewrite <- Eps, with_proj_same in Hsem, Hwf', Hcols.
+      eapply reskip_sound; eauto. simpl. rewrite G8. exact Hsem. simpl. congruence.
   Qed.
 End Rules2.
 
